@@ -197,7 +197,11 @@ def part_ragged(acc):
             acc.evaluations += 1
             acc.nontrivial += 1
             try:
-                got = list(g.spinn5_eth_coords(w, h, rx, ry))
+                first = g.spinn5_eth_coords(w, h, rx, ry)
+                got = list(first)
+                if isinstance(first, list):
+                    # whatever was handed out belongs to the caller
+                    del first[:]
             except Exception as ex:
                 got = [repr(ex)]
             try:
